@@ -1,13 +1,26 @@
 (* C23 — Path-specific storage rules resolve by longest matching prefix.
-   Only statements closed by [exact]; proofs live in proof/FilerConfProofs.v. *)
+   Only statements closed by [exact]; proofs live in proof/FilerConfProofs.v.
+
+   Reading of "a rule SETS a field": the field has a non-zero value (non-empty string,
+   true, growth > 0) — [c23_unset_is_zero_value].  A longer rule therefore can only
+   override a shorter one with a non-zero value; it cannot clear fsync / read_only /
+   growth back to the zero value ([c23_cannot_clear]).  This is how mergePathConf is
+   written and is part of the statement proved here, not a finding. *)
 From Coq Require Import List NArith Bool String.
 From SW Require Import model.FilerConf proof.FilerConfProofs.
 Import ListNotations.
+Local Open Scope string_scope.
+Local Open Scope list_scope.
 
-(* Every rule set reachable by AddLocationConf/DeleteLocationConf has one value per prefix. *)
+(* Every rule set reachable by AddLocationConf / DeleteLocationConf / LoadFromBytes /
+   ToText+LoadFromBytes has one value per prefix, and no empty prefix. *)
 Theorem c23_reachable_wf : forall rs o, wf rs -> wf (fst (step rs o)).
-Proof. exact step_wf. Qed.
+Proof. exact (step_wf match_rule). Qed.
 Print Assumptions c23_reachable_wf.
+
+Theorem c23_reachable_keys_nonempty : forall rs o, keys_ok rs -> keys_ok (fst (step rs o)).
+Proof. exact (step_keys_ok match_rule). Qed.
+Print Assumptions c23_reachable_keys_nonempty.
 
 (* Field-wise longest-prefix resolution, for any field whose merge is "b's value if b sets it":
    the resolved value is that of a longest matching rule that sets the field, or the
@@ -34,32 +47,133 @@ Proof.
 Qed.
 Print Assumptions c23_all_fields_are_fieldwise.
 
+(* "sets" means: has a non-zero value. *)
+Theorem c23_unset_is_zero_value : forall c,
+  (set_collection c = false <-> collection c = ""%string) /\
+  (set_replication c = false <-> replication c = ""%string) /\
+  (set_ttl c = false <-> ttl c = ""%string) /\
+  (set_disk_type c = false <-> disk_type c = ""%string) /\
+  (set_fsync c = false <-> fsync c = false) /\
+  (set_growth c = false <-> growth c = 0%N) /\
+  (set_read_only c = false <-> read_only c = false).
+Proof. exact unset_is_zero. Qed.
+Print Assumptions c23_unset_is_zero_value.
+
+Theorem c23_cannot_clear : forall a b,
+  (fsync a = true -> fsync (merge a b) = true) /\
+  (read_only a = true -> read_only (merge a b) = true) /\
+  (growth b = 0%N -> growth (merge a b) = growth a).
+Proof. exact merge_cannot_clear. Qed.
+Print Assumptions c23_cannot_clear.
+
 (* The longest setter is unique, so the resolution is a function of the rule set. *)
 Theorem c23_longest_unique : forall set rs path r1 r2, wf rs ->
   is_longest_setting set rs path r1 -> is_longest_setting set rs path r2 -> r1 = r2.
 Proof. exact longest_unique. Qed.
 Print Assumptions c23_longest_unique.
 
-(* The model's resolver equals the executable reference resolver that the
-   correspondence check uses as the property oracle — on every history. *)
+(* ... of the SET of stored rules: order and representation do not matter. *)
+Theorem c23_resolution_depends_on_rule_set_only : forall rs1 rs2 path,
+  wf rs2 -> (forall x, In x rs1 <-> In x rs2) -> match_rule rs1 path = match_rule rs2 path.
+Proof. exact match_rule_ext. Qed.
+Print Assumptions c23_resolution_depends_on_rule_set_only.
+
+(* The executable oracle used by the correspondence check on the IMPLEMENTATION's answers is
+   exactly the declarative statement (no model function occurs on the right-hand side) ... *)
+Theorem c23_oracle_is_declarative : forall {A} (eqb : A -> A -> bool) set (get : conf -> A) dflt rs path v,
+  (forall x y, eqb x y = true <-> x = y) ->
+  (field_ok eqb set get dflt rs path v = true <->
+   (exists r, is_longest_setting set rs path r /\ v = get (snd r)) \/
+   (none_sets set rs path /\ v = dflt)).
+Proof. exact @field_ok_spec. Qed.
+Print Assumptions c23_oracle_is_declarative.
+
+(* ... and over a one-value-per-prefix rule set it accepts the model's answer and nothing else. *)
+Theorem c23_oracle_accepts_exactly_the_model : forall rs path c, wf rs ->
+  (match_ok rs path c = true <-> c = match_rule rs path).
+Proof. exact match_ok_iff. Qed.
+Print Assumptions c23_oracle_accepts_exactly_the_model.
+
+(* The model's resolver equals the executable reference resolver — on every history
+   (Add / Del / Match / Load / Reload / Dump). *)
 Theorem c23_history_refines_reference : forall ops rs, wf rs -> run rs ops = ref_run rs ops.
 Proof. exact run_is_ref_run. Qed.
 Print Assumptions c23_history_refines_reference.
 
-(* Removing a rule restores the settings computed without it. *)
+(* Removing a rule restores the settings computed without it:
+   (1) a freshly added prefix, *)
 Theorem c23_delete_restores : forall rs p c path, wf rs -> ~ In p (map fst rs) ->
   match_rule (del (put rs p c) p) path = match_rule rs path.
 Proof. exact del_put_restores. Qed.
 Print Assumptions c23_delete_restores.
 
-(* non-vacuity: a concrete nested rule set is well formed and resolves field-wise *)
+(* (2) any prefix: the rules left are exactly the others, *)
+Theorem c23_delete_removes_exactly_p : forall rs p r, In r (del rs p) <-> In r rs /\ fst r <> p.
+Proof. exact del_spec. Qed.
+Print Assumptions c23_delete_removes_exactly_p.
+
+(* and the answers are those of the reference resolver over the rules other than p, *)
+Theorem c23_delete_resolves_without_p : forall rs p path, wf rs ->
+  match_rule (del rs p) path = ref_match (filter (fun r => negb (String.eqb (fst r) p)) rs) path.
+Proof. exact del_match_ref. Qed.
+Print Assumptions c23_delete_resolves_without_p.
+
+(* (3) delete after add / after replace forgets every value ever stored under p
+   (no hypothesis: also when p was present before). *)
+Theorem c23_delete_after_add : forall rs p c path,
+  match_rule (del (put rs p c) p) path = match_rule (del rs p) path.
+Proof. exact del_put_match. Qed.
+Print Assumptions c23_delete_after_add.
+
+Theorem c23_delete_after_replace : forall rs p c1 c2, del (put (put rs p c1) p c2) p = del rs p.
+Proof. exact del_put_put. Qed.
+Print Assumptions c23_delete_after_replace.
+
+(* Serialising the configuration and loading it into a fresh FilerConf (what every filer does
+   when /etc/seaweedfs/filer.conf changes) changes no answer; ToProto lists exactly the stored rules. *)
+Theorem c23_reload_preserves_answers : forall m rs, wf rs -> keys_ok rs ->
+  snd (step_with m rs Reload) = ODone /\
+  forall path, match_rule (fst (step_with m rs Reload)) path = match_rule rs path.
+Proof. exact reload_same. Qed.
+Print Assumptions c23_reload_preserves_answers.
+
+Theorem c23_dump_lists_exactly_the_rules : forall rs r, In r (dump rs) <-> In r rs.
+Proof. exact dump_in. Qed.
+Print Assumptions c23_dump_lists_exactly_the_rules.
+
+(* Finding 0 (c23-empty-prefix-panic): "every configured rule is accepted" fails — an empty
+   location prefix makes AddLocationConf / LoadFromBytes panic (ptrie indexes key[0]). *)
+Theorem c23_no_panic_refuted : exists ops, In OPanic (run [] ops).
+Proof. exact no_panic_refuted. Qed.
+Print Assumptions c23_no_panic_refuted.
+
+(* Outside the trigger (no op of the history carries an empty prefix) no call panics,
+   and Add / Load store exactly what they were given. *)
+Theorem c23_no_panic_partial : forall m ops rs, wf rs -> keys_ok rs ->
+  existsb op_empty_prefix ops = false -> ~ In OPanic (run_with m rs ops).
+Proof. exact no_panic_partial. Qed.
+Print Assumptions c23_no_panic_partial.
+
+Theorem c23_add_partial : forall m rs p c, op_empty_prefix (Add p c) = false ->
+  step_with m rs (Add p c) = (put rs p c, ODone).
+Proof. exact add_partial. Qed.
+Print Assumptions c23_add_partial.
+
+Theorem c23_load_partial : forall m rs l, op_empty_prefix (Load l) = false ->
+  step_with m rs (Load l) = (fold_left (fun acc r => put acc (fst r) (snd r)) l rs, ODone).
+Proof. exact load_partial. Qed.
+Print Assumptions c23_load_partial.
+
+(* non-vacuity: a concrete nested rule set is well formed, resolves field-wise (the longer
+   rule's disk type wins), passes the oracle, a delete restores, and a history with Load /
+   Reload lies outside the trigger of finding 0 *)
 Example c23_example :
-  let rs := put (put (put [] "/a" {| collection := "x"; replication := ""; ttl := "1d"; disk_type := "";
-                                     fsync := false; growth := 0; read_only := false |})
-                     "/a/b" {| collection := ""; replication := "001"; ttl := "2d"; disk_type := "ssd";
-                               fsync := true; growth := 2; read_only := false |})
-                "/ab" empty_conf in
-  wf rs /\ match_rule rs "/a/b/c" =
+  wf ex_rules /\ keys_ok ex_rules /\
+  match_rule ex_rules "/a/b/c" =
     {| collection := "x"; replication := "001"; ttl := "2d"; disk_type := "ssd";
-       fsync := true; growth := 2; read_only := false |}.
-Proof. split; [repeat apply put_wf; constructor | vm_compute; reflexivity]. Qed.
+       fsync := true; growth := 2; read_only := false |} /\
+  match_ok ex_rules "/a/b/c" (match_rule ex_rules "/a/b/c") = true /\
+  match_rule (del ex_rules "/a/b") "/a/b/c" = ex_a /\
+  existsb op_empty_prefix [Add "/a" ex_a; Load [("/a/b", ex_ab)]; Reload; Match "/a/b/c"; Dump] = false.
+Proof. exact example_holds. Qed.
+Print Assumptions c23_example.
